@@ -20,6 +20,21 @@ RULE = (
 )
 
 
+# relations whose columns are all non-key (d, d2): DISTINCT still sees every column
+NONKEY_OPS = (
+    ("proj", ("d",)),
+    ("proj", ("d2",)),
+    ("proj", ()),
+    ("dedup",),
+    ("sel", ("gt", ("ref", "d"), ("lit", 7))),
+    ("slice", 1, None),
+    ("slice", 0, 1),
+    ("chain", ("self",)),
+    ("calc", "y", ("neg", ("ref", "d"))),
+    ("sort", ((("ref", "d"), False),)),
+)
+
+
 def check_bounds(rel, count, where, tr):
     lo, hi = rel.min_rows, rel.max_rows
     if count < lo or (hi is not None and count > hi):
@@ -46,12 +61,14 @@ class C06(Check):
                 SubSpace("it/full/d3", iw, spaces.IT_ROOTS_ALL, spaces.IT_FULL, 3),
                 SubSpace("sql/full/d2", sw, spaces.SQL_ROOTS_ALL, spaces.SQL_FULL, 2),
                 SubSpace("sql/reduced/d3", sw, spaces.SQL_ROOTS_ALL, spaces.SQL_REDUCED, 3),
+                SubSpace("sql/nonkey/d3", sw, ("K", "K2"), NONKEY_OPS, 3),
             ]
         return [
             SubSpace("it/full/d3", iw, spaces.IT_ROOTS_ALL, spaces.IT_FULL, 3),
             SubSpace("it/reduced/d4", iw, spaces.IT_ROOTS_ALL, spaces.IT_REDUCED, 4),
             SubSpace("sql/full/d3", sw, spaces.SQL_ROOTS_ALL, spaces.SQL_FULL, 3),
             SubSpace("sql/reduced/d4", sw, ("X", "Xloose", "Xunb", "Eloose"), spaces.SQL_REDUCED, 4),
+            SubSpace("sql/nonkey/d4", sw, ("K", "K2"), NONKEY_OPS, 4),
         ]
 
     def judge(self, tr):
